@@ -1,6 +1,9 @@
 package main
 
 import (
+	"go/types"
+	"sort"
+	"go/token"
 	"fmt"
 	"strings"
 
@@ -19,7 +22,7 @@ func init() {
 		Assumptions: []string{"the Metrics implementation records what it is given"},
 		Rules: map[string]string{
 			"R1": "claim/state stores have the election mutex (W) in their must-lockset; per function: claim true <=> state LEADER among the constants stored; Status(): claim and state loads under the mutex (R)",
-			"R2": "in every function storing the claim: a call reaching Metrics.SetIsLeader after the claim store; a call reaching Metrics.IncTransitions whose `to` argument is the stored state constant and whose `from` argument derives from a state load preceding the state store in the same section",
+			"R2": "in every function storing the claim: a call reaching Metrics.SetIsLeader after the claim store - and after the section's state store when the gauge value is computed from the state word; the label set handed to Metrics.IncTransitions is built in that call (no element of a map looked up by a key that mentions fewer than two string parameters, no field or package variable); a call reaching Metrics.IncTransitions whose `to` argument is the stored state constant and whose `from` argument derives from a state load preceding the state store in the same section",
 			"R3": "stores to leaderID / revision / token: in a claim-set unit | own-write result | under the write lock with claim==false in that section",
 			"R5": "every follower-side function that reads the live record (it is reachable from the follower loop and reaches Get or receives watch entries) hands the record's id to the function that stores the leader-id field; at that call no guard demands that a leader id is already known (NOT (\"\" == <leader id field>))",
 			"R4": "constants stored to the state field are a subset of the exported State* constants",
@@ -180,12 +183,24 @@ func checkC18(c *Ctx) {
 		}
 		return found
 	}
+	readsState := func(g *ssa.Function) bool {
+		found := false
+		for _, h := range append([]*ssa.Function{g}, sortedFns(m.staticReach(g, false))...) {
+			eachInstr(h, func(in ssa.Instruction) {
+				if call, ok := in.(*ssa.Call); ok && m.isAtomicLoadOf(call, m.State) {
+					found = true
+				}
+			})
+		}
+		return found
+	}
 	for f, s := range sects {
 		if len(s.claimI) == 0 {
 			continue
 		}
 		claimAt := s.claimI[len(s.claimI)-1]
-		gauge, trans := false, ""
+		gauge, trans, gaugeStale := false, "", ""
+		var cached []string
 		m.eachUnitInstr(f, func(in ssa.Instruction) {
 			call, ok := in.(*ssa.Call)
 			if !ok {
@@ -200,6 +215,22 @@ func checkC18(c *Ctx) {
 			}
 			if reachesMetric(g, "SetIsLeader") && m.dominatesLifted(f, claimAt, in) && la.MustBefore(in)[m.implMuW()] {
 				gauge = true
+				// the gauge is published after the last store to everything it is computed from: a
+				// publication that reads the state word must follow the section's state store as well
+				if readsState(g) && len(s.stateI) > 0 && !m.dominatesLifted(f, s.stateI[len(s.stateI)-1], in) {
+					gaugeStale = fmt.Sprintf("the gauge value is computed from %s, which this section stores (%q) only after the publication", m.path(m.State), s.states)
+				}
+			}
+			if reachesMetric(g, "IncTransitions") {
+				for _, h := range append([]*ssa.Function{g}, sortedFns(m.staticReach(g, false))...) {
+					eachInstr(h, func(x ssa.Instruction) {
+						ic, ok := x.(*ssa.Call)
+						if !ok || !ic.Call.IsInvoke() || ic.Call.Method.Name() != "IncTransitions" || len(ic.Call.Args) == 0 {
+							return
+						}
+						cached = append(cached, m.storedLabelSets(ic.Call.Args[0], map[ssa.Value]bool{}, 0)...)
+					})
+				}
 			}
 			if reachesMetric(g, "IncTransitions") && len(call.Call.Args) >= 3 && la.MustBefore(in)[m.implMuW()] {
 				to, isC := constStr(call.Call.Args[2])
@@ -226,6 +257,8 @@ func checkC18(c *Ctx) {
 			}
 		})
 		c.check(gauge, "R2", "gauge updated after the claim store in "+shortFn(f), claimAt, "a call reaching Metrics.SetIsLeader after the claim store, under the mutex: %v", gauge)
+		c.check(gaugeStale == "", "R2", "gauge published after the stores it reads in "+shortFn(f), claimAt, "%s", orStr(gaugeStale, "the publication follows the last store of every field its value is computed from"))
+		c.check(len(cached) == 0, "R2", "transition labels are built from this transition in "+shortFn(f), claimAt, "the label set handed to Metrics.IncTransitions originates in mutable fields of the election %v: a cached set carries the from/to of an earlier transition (the chain of recorded transitions breaks from the second term on)", cached)
 		c.check(trans == "ok", "R2", "transition recorded with the section's own from/to in "+shortFn(f), claimAt, "%s", trans)
 	}
 
@@ -392,5 +425,134 @@ func followerObservesLeaderRule(c *Ctx, rule string) {
 	}
 	if n < 2 {
 		c.undecided(rule, "instance-floor", firstInstr(root), "only %d calls that record an observed leader found on the follower side; 2 on the reference tree (watch event, periodic check)", n)
+	}
+}
+
+func orStr(a, b string) string {
+	if a != "" {
+		return a
+	}
+	return b
+}
+
+// storedLabelSets: the places a map value may come from that are not a fresh allocation of the
+// current call: an element of another map or slice, or the content of a field / package variable.
+// Followed through phis, conversions and the results of library functions.
+func (m *Model) storedLabelSets(v ssa.Value, seen map[ssa.Value]bool, depth int) []string {
+	if v == nil || seen[v] || depth > 8 {
+		return nil
+	}
+	seen[v] = true
+	var out []string
+	switch x := v.(type) {
+	case *ssa.Phi:
+		for _, e := range x.Edges {
+			out = append(out, m.storedLabelSets(e, seen, depth+1)...)
+		}
+	case *ssa.ChangeType:
+		out = append(out, m.storedLabelSets(x.X, seen, depth+1)...)
+	case *ssa.Convert:
+		out = append(out, m.storedLabelSets(x.X, seen, depth+1)...)
+	case *ssa.Extract:
+		out = append(out, m.storedLabelSets(x.Tuple, seen, depth+1)...)
+	case *ssa.Lookup:
+		// a cache of label sets is sound when its key determines both states of the transition: the
+		// key mentions two distinct string parameters of the function that looks it up
+		leaves := map[string]bool{}
+		strParamLeaves(x.Index, leaves, map[ssa.Value]bool{}, 0)
+		if len(leaves) < 2 {
+			out = append(out, fmt.Sprintf("element of %s looked up by a key that mentions %v only", clip(m.Sym.Of(x.X).String(), 60), keysOfSet(leaves)))
+		}
+	case *ssa.Index:
+		out = append(out, "element of "+clip(m.Sym.Of(x.X).String(), 60))
+	case *ssa.UnOp:
+		if x.Op == token.MUL {
+			switch a := x.X.(type) {
+			case *ssa.FieldAddr:
+				if !strings.HasPrefix(m.Sym.Of(x).String(), m.path(m.Cfg)) {
+					out = append(out, "field "+clip(m.Sym.Of(x).String(), 60))
+				}
+			case *ssa.Global:
+				out = append(out, "variable "+a.Name())
+			case *ssa.IndexAddr:
+				out = append(out, "element of "+clip(m.Sym.Of(a.X).String(), 60))
+			}
+		}
+	case *ssa.Call:
+		if g := x.Call.StaticCallee(); g != nil && m.isLib(g) && g.Blocks != nil {
+			for _, b := range liveBlocks(g) {
+				if ret, ok := b.Instrs[len(b.Instrs)-1].(*ssa.Return); ok && len(ret.Results) > 0 && b != g.Recover {
+					out = append(out, m.storedLabelSets(ret.Results[0], seen, depth+1)...)
+				}
+			}
+		}
+	}
+	return out
+}
+
+func keysOfSet(m map[string]bool) []string {
+	var out []string
+	for k := range m {
+		out = append(out, k)
+	}
+	sort.Strings(out)
+	return out
+}
+
+// strParamLeaves collects the string parameters a key expression is built from (concatenation,
+// formatting calls, struct or array literals kept in a local).
+func strParamLeaves(v ssa.Value, out map[string]bool, seen map[ssa.Value]bool, depth int) {
+	if v == nil || seen[v] || depth > 10 {
+		return
+	}
+	seen[v] = true
+	switch x := v.(type) {
+	case *ssa.Parameter:
+		if b, ok := x.Type().Underlying().(*types.Basic); ok && b.Info()&types.IsString != 0 {
+			out[x.Name()] = true
+		}
+	case *ssa.BinOp:
+		strParamLeaves(x.X, out, seen, depth+1)
+		strParamLeaves(x.Y, out, seen, depth+1)
+	case *ssa.Convert:
+		strParamLeaves(x.X, out, seen, depth+1)
+	case *ssa.ChangeType:
+		strParamLeaves(x.X, out, seen, depth+1)
+	case *ssa.MakeInterface:
+		strParamLeaves(x.X, out, seen, depth+1)
+	case *ssa.Phi:
+		for _, e := range x.Edges {
+			strParamLeaves(e, out, seen, depth+1)
+		}
+	case *ssa.Slice:
+		strParamLeaves(x.X, out, seen, depth+1)
+	case *ssa.Call:
+		for _, a := range x.Call.Args {
+			strParamLeaves(a, out, seen, depth+1)
+		}
+	case *ssa.UnOp:
+		if x.Op == token.MUL {
+			strParamLeaves(x.X, out, seen, depth+1)
+		}
+	case *ssa.Alloc:
+		if x.Parent() == nil {
+			return
+		}
+		eachInstr(x.Parent(), func(in ssa.Instruction) {
+			st, ok := in.(*ssa.Store)
+			if !ok {
+				return
+			}
+			base := st.Addr
+			switch a := base.(type) {
+			case *ssa.FieldAddr:
+				base = a.X
+			case *ssa.IndexAddr:
+				base = a.X
+			}
+			if base == ssa.Value(x) {
+				strParamLeaves(st.Val, out, seen, depth+1)
+			}
+		})
 	}
 }
